@@ -25,14 +25,16 @@ Proof. exact L_example. Qed.
    _getMacSettings), the PRF really applied by calc_key for every label (key expansion, master secret,
    extended master secret, Finished) / the TLS 1.3 key-schedule hash, the exporter, the deprecated
    calc* helpers, the TLS 1.3 KeyUpdate (hash and length of the next traffic secret, of the new key and
-   IV, in all four role/direction wrappers), and the key-exchange class chosen by client and server,
+   IV, in all four role/direction wrappers), the TLS 1.3 PSK rule (filter_for_prfs and the server's
+   selection guard accept a PSK for the suite exactly when its hash is the suite's), and the
+   key-exchange class chosen by client and server,
    are those denoted by the IANA name *)
 Theorem classification_matches_name : forall s v,
   In s all_suites -> In v all_versions -> negotiable s v = true ->
   exists m r, meaning_of s = Some m /\ row_of s = Some r /\
     cipher_settings_ok m r = true /\ mac_settings_ok m r = true /\ prf_ok m r v = true /\
     labels_ok m r v = true /\ exporter_ok m r v = true /\ deprecated_ok m r v = true /\
-    keyupdate_ok m r v = true /\ chk_dispatch s = true.
+    keyupdate_ok m r v = true /\ psk_ok m r v = true /\ chk_dispatch s = true.
 Proof. exact L_classification. Qed.
 
 (* a suite is negotiable only in a version that defines it: TLS 1.3 suites exactly in TLS 1.3,
@@ -72,6 +74,12 @@ Proof. exact L_lists. Qed.
 Theorem lists_partition : forall s v,
   In s all_suites -> In v all_versions -> negotiable s v = true -> chk_partition s = true.
 Proof. exact L_partition. Qed.
+
+(* resumed connections (TLS <= 1.2) take the suite for the key block and the Finished values from the session
+   being resumed, on both sides; the client really sends illegal_parameter and aborts when the ServerHello names
+   another suite; full handshakes use the negotiated suite (structure of tlsconnection.py, read from its ast) *)
+Theorem resumption_uses_session_suite : chk_suite_sources = true.
+Proof. exact suite_sources_ok. Qed.
 
 (* beyond the property (all known ids with a registered meaning, negotiable or not): an id whose
    record-layer settings, accessor names or membership in the lists consulted by the record layer, the
